@@ -2,7 +2,7 @@
     UNIT / RECORD_LAYOUT pass is safe (whatever is still referenced stays) and complete (whatever stays is
     referenced). *)
 From Coq Require Import String List NArith Bool Ascii Lia.
-From A2L Require Import Text.Escape Lex.Tokenizer Lib.Merge Lib.Cleanup Proofs.MergeProofs.
+From A2L Require Import Base.ListX Text.Escape Lex.Tokenizer Lib.Merge Lib.Cleanup Proofs.MergeProofs.
 Import ListNotations.
 
 Lemma cleanup_keeps_objects m : m_objs (cleanup m) = m_objs m.
@@ -349,4 +349,197 @@ Qed.
 Theorem cleanup_groups_names m x : In x (map g_nm (cleanup_groups m)) -> In x (map g_nm (m_groups m)).
 Proof.
   unfold cleanup_groups. intros Hx. apply iterate_groups_names in Hx. rewrite map_map in Hx. exact Hx.
+Qed.
+
+(* ---------- a second run of the COMPU_METHOD pass changes nothing ---------- *)
+Definition after_module (m : cmod) : cmod :=
+  let ac := cleanup_compu_methods m in
+  mkM (m_objs m) (m_groups m) (m_funcs m) (ac_cms ac) (ac_tabs ac) (ac_units ac) (m_rls m) (ac_conv ac) (m_conv_ro m)
+      (m_obj_funcs m) (m_rl_uses m) (m_grp_uses m).
+
+Lemma fix_conv_after m c : In c (ac_conv (cleanup_compu_methods m)) ->
+  fix_conv (ac_cms (cleanup_compu_methods m)) c = c.
+Proof.
+  intros H. unfold fix_conv. destruct (mem c (cm_names (ac_cms (cleanup_compu_methods m)))) eqn:E; [reflexivity|].
+  destruct (conversions_resolve_after m c H) as [->|Hin]; [reflexivity|].
+  apply mem_In in Hin. congruence.
+Qed.
+
+Lemma reachable_in_closure units seeds fuel x : length (pending units seeds) < fuel ->
+  unit_reachable units seeds x -> mem x (unit_closure fuel units seeds) = true.
+Proof.
+  intros Hf Hr. pose proof (unit_closure_closed units fuel seeds Hf) as Hcl.
+  induction Hr as [x Hs|u r Hu Hr IH Href].
+  - apply mem_In. apply unit_closure_incl. exact Hs.
+  - eapply Hcl; eauto.
+Qed.
+
+Section Idem.
+  Variable m : cmod.
+  Let conv0 := map (fix_conv (m_cms m)) (m_conv m).
+  Let cmsf := filter (fun c => mem (cm_nm c) (conv0 ++ m_conv_ro m)) (m_cms m).
+  Let seeds0 := flat_map (fun c => opt_list (cm_unit c)) cmsf.
+  Let U := unit_closure (S (length (m_units m))) (m_units m) seeds0.
+  Let unitsA := filter (fun u => mem (u_nm u) U) (m_units m).
+  Let tabsA := filter (fun t => mem (snd t) (flat_map (fun c => opt_list (cm_tab c) ++ opt_list (cm_ssr c)) cmsf)) (m_tabs m).
+  Let fixcm (c : ccm) := mkCM (cm_nm c)
+      (match cm_tab c with Some t => if mem t (map snd tabsA) then Some t else None | None => None end)
+      (match cm_unit c with Some u => if mem u (map u_nm unitsA) then Some u else None | None => None end)
+      (cm_ssr c).
+  Let cmsA := map fixcm cmsf.
+
+  Lemma ac_unfold : cleanup_compu_methods m = mkAC conv0 cmsA tabsA unitsA.
+  Proof. reflexivity. Qed.
+
+  Lemma cmsA_names : cm_names cmsA = cm_names cmsf.
+  Proof. unfold cmsA, cm_names. rewrite map_map. reflexivity. Qed.
+
+  Lemma seeds_kept x : In x seeds0 -> In x (map u_nm unitsA) ->
+    In x (flat_map (fun c => opt_list (cm_unit c)) cmsA).
+  Proof.
+    intros Hs Hx. unfold seeds0 in Hs. apply in_flat_map in Hs. destruct Hs as (c0 & Hc0 & Hin).
+    apply in_flat_map. exists (fixcm c0). split; [apply in_map; exact Hc0|].
+    destruct (cm_unit c0) as [u|] eqn:Eu; simpl in Hin; [|destruct Hin]. destruct Hin as [->|[]].
+    unfold fixcm. simpl. rewrite Eu. apply mem_In in Hx. rewrite Hx. left; reflexivity.
+  Qed.
+
+  Lemma in_unitsA u : In u (m_units m) -> mem (u_nm u) U = true -> In u unitsA.
+  Proof. intros Hu Hm. unfold unitsA. apply filter_In. auto. Qed.
+
+  Lemma U_fuel : length (pending (m_units m) seeds0) < S (length (m_units m)).
+  Proof. pose proof (pending_le (m_units m) seeds0). lia. Qed.
+
+  Lemma reachable_in_second_closure x :
+    unit_reachable (m_units m) seeds0 x -> In x (map u_nm (m_units m)) ->
+    mem x (unit_closure (S (length unitsA)) unitsA (flat_map (fun c => opt_list (cm_unit c)) cmsA)) = true.
+  Proof.
+    set (seeds1 := flat_map (fun c => opt_list (cm_unit c)) cmsA).
+    assert (Hcl : closed_under_ref unitsA (unit_closure (S (length unitsA)) unitsA seeds1)).
+    { apply unit_closure_closed. pose proof (pending_le unitsA seeds1). lia. }
+    intros Hr. induction Hr as [x Hs|u r Hu Hr IH Href]; intros Hx.
+    - apply mem_In. apply unit_closure_incl. apply seeds_kept; [exact Hs|].
+      assert (HU : mem x U = true) by (apply mem_In; apply unit_closure_incl; exact Hs).
+      apply in_map_iff in Hx. destruct Hx as (ux & Hn & Hux). apply in_map_iff. exists ux. split; [exact Hn|].
+      apply in_unitsA; [exact Hux | rewrite Hn; exact HU].
+    - assert (HuA : In u unitsA).
+      { apply in_unitsA; [exact Hu|]. apply reachable_in_closure; [apply U_fuel | exact Hr]. }
+      eapply Hcl; [exact HuA | apply IH; apply in_map; exact Hu | exact Href].
+  Qed.
+
+  Theorem compu_method_pass_is_idempotent : cleanup_compu_methods (after_module m) = cleanup_compu_methods m.
+  Proof.
+    unfold after_module. rewrite ac_unfold. unfold cleanup_compu_methods. cbn [m_conv m_cms m_conv_ro m_tabs m_units ac_conv ac_cms ac_tabs ac_units].
+    (* 1: the conversions are stable *)
+    assert (E1 : map (fix_conv cmsA) conv0 = conv0).
+    { apply map_id_in. intros c Hc. pose proof (fix_conv_after m c) as H. rewrite ac_unfold in H. apply H. exact Hc. }
+    rewrite E1.
+    (* 2: every remaining COMPU_METHOD is still used *)
+    assert (E2 : filter (fun c => mem (cm_nm c) (conv0 ++ m_conv_ro m)) cmsA = cmsA).
+    { apply filter_all. intros c Hc. unfold cmsA in Hc. apply in_map_iff in Hc. destruct Hc as (c0 & <- & Hc0).
+      unfold cmsf in Hc0. apply filter_In in Hc0. exact (proj2 Hc0). }
+    rewrite E2.
+    (* 3: every remaining table is still named *)
+    assert (E3 : filter (fun t => mem (snd t) (flat_map (fun c => opt_list (cm_tab c) ++ opt_list (cm_ssr c)) cmsA)) tabsA = tabsA).
+    { apply filter_all. intros t Ht. apply mem_In.
+      destruct (remaining_tables_are_used m (snd t)) as (c & Hc & Hn).
+      { unfold tabs_after. rewrite ac_unfold. simpl. apply in_map. exact Ht. }
+      rewrite ac_unfold in Hc. simpl in Hc. apply in_flat_map. exists c. split; [exact Hc|].
+      apply in_or_app. destruct Hn as [Hn|Hn]; rewrite Hn; [left|right]; left; reflexivity. }
+    rewrite E3.
+    (* 4: every remaining unit is still reachable *)
+    assert (E4 : filter (fun u => mem (u_nm u) (unit_closure (S (length unitsA)) unitsA (flat_map (fun c => opt_list (cm_unit c)) cmsA))) unitsA = unitsA).
+    { apply filter_all. intros u Hu. apply reachable_in_second_closure.
+      - pose proof (remaining_units_are_used m u) as H. rewrite ac_unfold in H. apply H. exact Hu.
+      - unfold unitsA in Hu. apply filter_In in Hu. apply in_map. exact (proj1 Hu). }
+    rewrite E4.
+    (* 5: the references of the remaining COMPU_METHODs are stable *)
+    f_equal. apply map_id_in. intros c Hc. destruct c as [n t u s]. simpl.
+    pose proof (compu_tab_refs_resolve_after m (mkCM n t u s)) as Ht.
+    pose proof (units_of_remaining_methods_stay m (mkCM n t u s)) as Hu.
+    rewrite ac_unfold in Ht, Hu. simpl in Ht, Hu. unfold tabs_after in Ht. rewrite ac_unfold in Ht. simpl in Ht.
+    f_equal.
+    - destruct t as [t0|]; [|reflexivity]. specialize (Ht t0 Hc eq_refl). apply mem_In in Ht. rewrite Ht. reflexivity.
+    - destruct u as [u0|]; [|reflexivity]. specialize (Hu u0 Hc eq_refl). apply mem_In in Hu. rewrite Hu. reflexivity.
+  Qed.
+End Idem.
+
+Theorem record_layout_pass_is_idempotent m :
+  filter (fun r => mem r (m_rl_uses m)) (cleanup_record_layouts m) = cleanup_record_layouts m.
+Proof.
+  unfold cleanup_record_layouts. apply filter_all. intros r Hr. apply filter_In in Hr. exact (proj2 Hr).
+Qed.
+
+(* ---------- FUNCTIONs: what the rounds never remove ---------- *)
+Definition may_go_base (used : list name) (f : cfunc) : bool := negb (mem (f_nm f) used) && func_empty f.
+Definition func_protected (used : list name) (f : cfunc) : bool :=
+  mem (f_nm f) used || negb (oempty (f_rc f)) || negb (oempty (f_dc f)) || negb (oempty (f_in f)) ||
+  negb (oempty (f_loc f)) || negb (oempty (f_out f)).
+
+Lemma may_go_implies_base used fs dead f : may_go used fs dead f = true -> may_go_base used f = true.
+Proof. unfold may_go, may_go_base. intros H. apply andb_true_iff in H. exact (proj1 H). Qed.
+
+Lemma dead_fix_sound used fs : forall fuel dead,
+  (forall n, In n dead -> exists f, In f fs /\ f_nm f = n /\ may_go_base used f = true) ->
+  forall n, In n (dead_fix fuel used fs dead) -> exists f, In f fs /\ f_nm f = n /\ may_go_base used f = true.
+Proof.
+  induction fuel as [|k IH]; intros dead Hd n Hn; simpl in Hn; [apply Hd; exact Hn|].
+  destruct (Nat.eqb _ _); [apply Hd; exact Hn|].
+  eapply IH; [|exact Hn]. intros n' Hn'. apply in_map_iff in Hn'. destruct Hn' as (f & <- & Hf).
+  apply filter_In in Hf. exists f. split; [exact (proj1 Hf)|]. split; [reflexivity|].
+  eapply may_go_implies_base. exact (proj2 Hf).
+Qed.
+
+Lemma protected_not_base used f : func_protected used f = true -> may_go_base used f = false.
+Proof.
+  unfold func_protected, may_go_base, func_empty. intros H.
+  destruct (mem (f_nm f) used); [reflexivity|]. simpl in *.
+  destruct (oempty (f_rc f)); simpl in *; [|reflexivity].
+  destruct (oempty (f_dc f)); simpl in *; [|reflexivity].
+  destruct (oempty (f_in f)); simpl in *; [|reflexivity].
+  destruct (oempty (f_loc f)); simpl in *; [|reflexivity].
+  destruct (oempty (f_out f)); simpl in *; [discriminate | reflexivity].
+Qed.
+
+Definition func_kept (f : cfunc) (fs : list cfunc) : Prop :=
+  NoDup (map f_nm fs) /\
+  exists f', In f' fs /\ f_nm f' = f_nm f /\ f_rc f' = f_rc f /\ f_dc f' = f_dc f /\ f_in f' = f_in f /\
+             f_loc f' = f_loc f /\ f_out f' = f_out f /\ f_proto f' = f_proto f.
+
+Lemma nodup_fnames_inj fs a b : NoDup (map f_nm fs) -> In a fs -> In b fs -> f_nm a = f_nm b -> a = b.
+Proof.
+  induction fs as [|x l IH]; simpl; intros Hn Ha Hb E; [tauto|]. inversion Hn as [|? ? Hx Hl]; subst.
+  destruct Ha as [<-|Ha], Hb as [<-|Hb]; auto.
+  - exfalso. apply Hx. rewrite E. apply in_map; exact Hb.
+  - exfalso. apply Hx. rewrite <- E. apply in_map; exact Ha.
+Qed.
+
+Lemma funcs_round_keeps used f fs : func_protected used f = true -> func_kept f fs -> func_kept f (fst (funcs_round used fs)).
+Proof.
+  intros Hp [Hn (f1 & Hf1 & En & E1 & E2 & E3 & E4 & E5 & E6)]. unfold funcs_round.
+  destruct (dead_fix (S (length fs)) used fs []) as [|d ds] eqn:Ed.
+  - cbn [fst]. split; [exact Hn|]. exists f1. repeat split; assumption.
+  - cbn [fst]. split.
+    + rewrite map_map. cbn [f_nm]. apply NoDup_map_filter. exact Hn.
+    + eexists. split.
+      * apply in_map. apply filter_In. split; [exact Hf1|]. apply negb_true_iff.
+        destruct (mem (f_nm f1) (d :: ds)) eqn:Em; [|reflexivity]. exfalso.
+        apply mem_In in Em. rewrite <- Ed in Em.
+        destruct (dead_fix_sound used fs (S (length fs)) [] (fun n H => match H with end) _ Em) as (f0 & Hf0 & Hn0 & Hb).
+        assert (f0 = f1) by (eapply nodup_fnames_inj; eauto). subst f0.
+        assert (Hp1 : func_protected used f1 = true).
+        { unfold func_protected in *. rewrite En, E1, E2, E3, E4, E5. exact Hp. }
+        rewrite (protected_not_base used f1 Hp1) in Hb. discriminate.
+      * cbn [f_nm f_rc f_dc f_in f_loc f_out f_proto]. repeat split; assumption.
+Qed.
+
+(** a FUNCTION that an object or a group lists, or that still refers to an existing object, is never removed *)
+Theorem protected_functions_stay used fs f : NoDup (map f_nm fs) -> In f fs -> func_protected used f = true ->
+  exists f', In f' (iterate (S (length fs)) (funcs_round used) fs) /\ f_nm f' = f_nm f /\
+             f_rc f' = f_rc f /\ f_dc f' = f_dc f /\ f_in f' = f_in f /\ f_loc f' = f_loc f /\ f_out f' = f_out f.
+Proof.
+  intros Hn Hf Hp.
+  assert (K : func_kept f (iterate (S (length fs)) (funcs_round used) fs)).
+  { apply iterate_inv; [intros x; apply funcs_round_keeps; exact Hp|].
+    split; [exact Hn|]. exists f. repeat split; auto. }
+  destruct K as [_ (f' & Hf' & E0 & E1 & E2 & E3 & E4 & E5 & _)]. exists f'. repeat split; assumption.
 Qed.
